@@ -97,7 +97,7 @@ Proof.
   set (cols := columns (N.to_nat BloomByteLength) blooms).
   assert (Hc : length (rev cols) = 256%nat) by (rewrite rev_length; unfold cols; rewrite columns_length; reflexivity).
   rewrite (nth_flat_map_chunks (A:=list N) (B:=bytes) _ 8 [] []);
-    [|intro a; rewrite map_length, nseq_length; reflexivity|rewrite Hc; lia].
+    [|intro a; rewrite map_length, nseq_length; reflexivity|change (N.to_nat i < 8 * length (rev cols))%nat; rewrite Hc; lia].
   assert (Hq : (N.to_nat i / 8 < 256)%nat) by (apply Nat.div_lt_upper_bound; lia).
   rewrite rev_nth by (rewrite rev_length in Hc; rewrite Hc; exact Hq).
   rewrite rev_length in Hc; rewrite Hc. unfold cols.
@@ -119,7 +119,7 @@ Lemma gen_vectors_length blooms : length (gen_vectors blooms) = N.to_nat BloomBi
 Proof.
   unfold gen_vectors.
   assert (H : forall l : list bytes, length (flat_map (fun col => map (fun t => pack8 (map (fun x => N.testbit x t) col)) (nseq 0 8)) l) = (8 * length l)%nat).
-  { induction l as [|a r IH]; [reflexivity|]. simpl flat_map. rewrite app_length, IH, map_length, nseq_length. simpl length. lia. }
+  { induction l as [|a r IH]; [reflexivity|]. cbn [flat_map length]. rewrite app_length, IH, map_length, nseq_length. lia. }
   rewrite H, rev_length, columns_length. reflexivity.
 Qed.
 
